@@ -36,10 +36,17 @@ def lex_stable(text, piece, stmt_tokens):
     return [(ttname(a), b) for a, b in want] == [(ttname(a), b) for a, b in got]
 
 
+def flat_statements(s):
+    """the flat statements of lexer ∘ splitter (before grouping: grouping re-types `*` to Operator, which is irrelevant here)"""
+    from sqlparse.engine import StatementSplitter
+    return [list(st.flatten()) for st in StatementSplitter().process(lexer.tokenize(s))]
+
+
 def oracle(ctx, s):
     try:
         pieces = sqlparse.split(s)
         parsed = sqlparse.parse(s)
+        flats = flat_statements(s)
     except Exception as e:
         ctx.fail('split/parse raised ' + type(e).__name__, s, observed=repr(e), required='no exception')
         return
@@ -64,13 +71,13 @@ def oracle(ctx, s):
     if s[pos:].strip() != '':
         ctx.fail('non-whitespace text after the last piece', s, observed=s[pos:][:40], required='whitespace only')
         return
-    for p, st in zip(pieces, parsed):
+    for p, st in zip(pieces, flats):
         try:
             again = sqlparse.split(p)
         except Exception as e:
             again = 'raised ' + type(e).__name__
         if again != [p]:
-            stable = lex_stable(s, p, list(st.flatten()))
+            stable = lex_stable(s, p, st)
             ctx.fail('re-splitting a piece does not return it unchanged', s, observed=again if isinstance(again, str) else again[:4],
                      required=[p], piece=p, lex_stable=stable)
             return
@@ -96,8 +103,43 @@ def run(ctx):
         streams.s_split(ctx, ex)
         ctx.streams['S-SPLIT']['bounded_exhaustive'] = 'all sequences over 16 splitter symbols up to length 3 and over three reduced alphabets up to length 5-6 (quick) / 6-7 (thorough): %d inputs' % len(ex)
         streams.s_csl(ctx)
+        domain_lexstable(ctx, ins[: ctx.n(1500, 30000)])
     else:
         ctx.notes.append('model driver unavailable: correspondence streams skipped')
+
+
+def domain_lexstable(ctx, ins):
+    """DOMAIN(lexstable): the hypothesis of C04.resplit_text_any evaluated by the Lean driver for every statement; where it holds the theorem
+    predicts split(piece) == [piece] — compared with the real code; it is also compared with this file's Python rendering of the
+    predicate (used to classify KF-C04-1), so the classification is anchored in the Lean definition"""
+    outs = ctx.model.ask(['lexstable ' + hexs(s) for s in ins])
+    holds = total = 0
+    for s, mo in zip(ins, outs):
+        ctx.stream('DOMAIN(lexstable)', inputs=1, lines=1)
+        ws = mo.split()
+        try:
+            parsed = flat_statements(s)
+            pieces = sqlparse.split(s)
+        except Exception:
+            continue
+        if ws[:1] != ['ok'] or len(ws) - 1 != len(parsed):
+            ctx.mismatch('DOMAIN(lexstable)', s, mo, '%d statements' % len(parsed))
+            continue
+        for d, st, p in zip(ws[1:], parsed, pieces):
+            total += 1
+            py = lex_stable(s, p, st)
+            if (d == '1') != py:
+                ctx.mismatch('DOMAIN(lexstable)', s, 'Lean LexStable=%s for piece %r' % (d, p[:40]), 'python lex_stable=%s' % py)
+            if d == '1':
+                holds += 1
+                try:
+                    again = sqlparse.split(p)
+                except Exception as e:
+                    again = 'raised ' + type(e).__name__
+                if again != [p]:
+                    ctx.mismatch('DOMAIN(lexstable)', s, 'LexStable holds, theorem predicts [piece]', repr(again)[:120])
+    ctx.dist['lexstable_holds'] = holds
+    ctx.dist['lexstable_statements'] = total
 
 
 def classify(f, kf):
